@@ -111,7 +111,7 @@ def _initial_states():
 OPS = [
     ("set", "TITLE", None), ("set", "TITLE", "x"), ("set", "TITLE", SOUP), ("set", "ATTACKS", "a:b"), ("set", "ATTACKS", ""), ("set", "ATTACKS", None),
     ("set", "DISPLAYBPM", "1:2"), ("set", "STOPS", "x"), ("set", "FREEZES", "y"), ("set", "", "x"), ("set", "X Y", ""), ("set", "A:B", ("fresh", SOUP)),
-    ("alias", "X Y", "TITLE"), ("set", "NOTES2", "n2"),
+    ("alias", "X Y", "TITLE"), ("set", "NOTES2", "n2"), ("set", "NOTEDATA", ""),
     ("pop", "TITLE"), ("popitem",), ("move_to_end", "TITLE"), ("update", [["TITLE", "u"], ["NEW", "v:w"]]), ("setdefault", "GENRE", "g"), ("clear",),
     ("del", "TITLE"), ("del", "ATTACKS"), ("del", "STOPS"), ("del", "FREEZES"),
     ("aset", "title", "t2"), ("adel", "title"), ("aset", "attacks", "p:q"), ("aset", "displaybpm", None), ("aset", "stops", "s2"), ("adel", "stops"),
